@@ -60,9 +60,18 @@ func firstStepPoints(thorough bool) (pts [][]byte, targetsTried int) {
 				top := new(big.Int).Lsh(big.NewInt(1), w)
 				mm := new(big.Int).Mul(new(big.Int).SetUint64(bound), new(big.Int).SetUint64(k))
 				mm.Rsh(mm, w)
+				// (a word size below the limb size gives astronomically many wrap points: skipped; the
+				// rest is thinned to at most 128 (thorough 1024) multiples per constant, word size and limb)
+				if !mm.IsUint64() || mm.Uint64() > 1<<20 {
+					continue
+				}
 				step := uint64(1)
-				if !thorough && mm.Uint64() > 128 {
-					step = mm.Uint64() / 128
+				lim := uint64(128)
+				if thorough {
+					lim = 1024
+				}
+				if mm.Uint64() > lim {
+					step = mm.Uint64() / lim
 				}
 				for m := uint64(1); m <= mm.Uint64(); m += step {
 					v := new(big.Int).Mul(new(big.Int).SetUint64(m), top)
